@@ -149,7 +149,7 @@ def run(chk):
             chk.count(key, nontrivial=True)
             kp = key.split(":")
             chk.tally("fault_" + (kp[2] if len(kp) > 2 and kp[1].startswith("line") else kp[1] if len(kp) > 1 else "special"))
-            crash = [x for x in o if isinstance(x, tuple)]
+            crash = [x for x in o if isinstance(x, tuple)] or [("HANG", "%s does not return within the watchdog limit" % x.split()[0]) for x in o if x.strip().endswith(" HANG")]
             replay = dict(fault=key, table_bytes=list(data[:6000]), table_text=data.decode("latin-1")[:3000])
             if crash:
                 kind = "hang" if crash[0][0] == "HANG" else "crash"
